@@ -436,6 +436,24 @@ func (fr *Frame) call(ci ssa.CallInstruction, c *ssa.CallCommon) []*Term {
 			return fr.inline(callee, mc, fr, c.Args, ci)
 		}
 	}
+	// function values with a declared behaviour (results of contracted calls, parameters)
+	if !c.IsInvoke() && callee == nil {
+		if bname := fr.behaviourOf(c.Value); bname != "" {
+			bc := w.P.Contracts["behaviour:"+bname]
+			if bc == nil {
+				enc.unsup("behaviour %s not declared", bname)
+			}
+			bc.Used = true
+			var args []*Term
+			var argTypes []types.Type
+			for _, a := range c.Args {
+				args = append(args, fr.val(a))
+				argTypes = append(argTypes, a.Type())
+			}
+			enc.oblige("safety:nil", fr.where(ci), "call of nil function value", nil, fr.curPC, Not(Eq(fr.val(c.Value), IntLit(0))))
+			return fr.applyContract(bc, "behaviour:"+bname, ci, args, argTypes, resTypes)
+		}
+	}
 	if !c.IsInvoke() && callee == nil {
 		if cr := fr.closureOf(c.Value); cr != nil {
 			fn := cr.mc.Fn.(*ssa.Function)
@@ -930,4 +948,34 @@ func (fr *Frame) bridgeFormat(ci ssa.CallInstruction) {
 		sl := fr.val(c.Args[i+1])
 		fr.enc.assume(Eq(A(f, fr.val(c.Args[i]), sl, Select(h, A("s_base", sl))), fr.format(c.Args[i], args, true)), "format expansion of a constant format string")
 	}
+}
+
+// behaviourOf finds the declared behaviour of a function value, if any.
+func (fr *Frame) behaviourOf(v ssa.Value) string {
+	w := fr.enc.w
+	switch x := v.(type) {
+	case *ssa.Extract:
+		if call, ok := x.Tuple.(*ssa.Call); ok {
+			if f := call.Call.StaticCallee(); f != nil {
+				if fc := w.P.Contracts[f.String()]; fc != nil && x.Index < len(fc.Results) {
+					return fc.Behaves[fc.Results[x.Index]]
+				}
+			}
+		}
+	case *ssa.Call:
+		if f := x.Call.StaticCallee(); f != nil {
+			if fc := w.P.Contracts[f.String()]; fc != nil && len(fc.Results) == 1 {
+				return fc.Behaves[fc.Results[0]]
+			}
+		}
+	case *ssa.Parameter:
+		if fr.fc != nil {
+			for i, p := range fr.fn.Params {
+				if p == x && i < len(fr.fc.Params) {
+					return fr.fc.Behaves[fr.fc.Params[i]]
+				}
+			}
+		}
+	}
+	return ""
 }
